@@ -17,6 +17,7 @@ CASES = [
  ("n09", "trie/theorems_verif.go", "C15.addThenHas", "//@   requires closed(heaphas(t.m), heapval(t.m), alloc)\n", "", "children of live nodes need not be live"),
  ("n10", "formats/fastq/theorems_verif.go", "C06.crlf", "//@   requires f != nil && len(f.Sequence) == len(f.Quals)\n", "//@   requires f != nil\n", "sequence and qualities of different lengths"),
  ("n11", "formats/newick/theorems_verif.go", "C06.tokenCRLF", " && !nwSep(x[k])", "", "token may contain separators"),
+ ("n13", "trie/theorems_verif.go", "C15.deletePrunesPrefixes", " && tree(heaphas(t.m), heapval(t.m), alloc, t)\n", "\n", "heap need not be tree shaped"),
  ("n12", "formats/sam/theorems_verif.go", "C03.recordRoundtrip", "//@   requires forall k string :: has(s.Tags, k) ==> tagDomain(k, s.Tags[k])\n", "", "optional fields outside the domain"),
 ]
 def main():
